@@ -113,6 +113,8 @@ def inputs(ctx):
             langs.append(lst)
             layouts.append(lay)
         ins.append({"id": "r%d" % k, "writer": w, "langs": langs, "parts": layouts})
+        if k % 4 == 0 and all(Fraction(s).denominator == 1 and Fraction(e).denominator == 1 for l in langs for s, e in l):
+            ins.append({"id": "o%d" % k, "writer": w, "langs": langs, "parts": layouts, "pre": "observed-then-retimed"})
     # equal timespans that are NOT consecutive (another cue in between), overlapping and unsorted
     # lists: only a run of consecutive equal spans may be merged.  The SAMI writer places cues by
     # time and is left out of this family.
@@ -168,6 +170,15 @@ def execute(inp):
     w = inp["writer"]
     fmt = FMT[w]
     cs = _set(inp)
+    if inp.get("pre") == "observed-then-retimed":
+        # the set was looked at (repr, formatted stamps, text) while its times were different, then
+        # retimed in place to the instants of this input: what is written denotes the current times
+        delta = 250_000
+        cs.adjust_caption_timing(offset=delta)
+        for lg in cs.get_languages():
+            for c in cs.get_captions(lg):
+                repr(c), c.format_start(), c.format_end(), c.format_start(","), c.format_end(","), c.get_text()
+        cs.adjust_caption_timing(offset=-delta)
     rec = {"k": "write", "fmt": fmt, "mode": MODE[w], "writer": w, "ok": True}
     li = inp.get("lang_index", 0)
     # multi-language sets: one record judges every language (concatenated check per language)
